@@ -14,7 +14,7 @@ RULE = ("per class: (a) joint assignments to all CDB fields at once (service act
         "alphabet; the spec encoder turns the assignment into bytes, then unmarshall_cdb(bytes) must equal the assignment, "
         "marshall_cdb(assignment) and marshall_cdb(unmarshall_cdb(bytes)) must equal the bytes, and relative to the baseline only the "
         "deviating fields may change; (b) every CDB built by the constructor for argument tuples with at most k-1 deviations is decoded "
-        "and re-encoded, allocation / transfer lengths 2^24+1 ... 2^32-1 included (buffers stood in for by length-only objects); (c) 13 fresh processes whose first library action is a base-class marshall / build / decode with an operation code of each length group, a refused marshall or a refused construction, followed by the first-ever dictionary-level encode/decode of every class at both baselines; (d) per class, the layout table re-bound with one more field in a free byte (a user adding the CONTROL byte): class-level encode, instance-level build and decode must follow the table in place. Non-trivial = at least one deviation; distinct = distinct (class, mode, assignment).")
+        "and re-encoded, allocation / transfer lengths 2^24+1 ... 2^32-1 included (buffers stood in for by length-only objects); (c) 13 fresh processes whose first library action is a base-class marshall / build / decode with an operation code of each length group, a refused marshall or a refused construction, followed by the first-ever dictionary-level encode/decode of every class at both baselines; (d) per class, the layout table re-bound with one more field in a free byte (a user adding the CONTROL byte): class-level encode, instance-level build and decode must follow the table in place; (e) per class, a subclass overriding the marshall_cdb / unmarshall_cdb pair: constructor and build_cdb go through the override. Non-trivial = at least one deviation; distinct = distinct (class, mode, assignment).")
 ASSUMPTIONS = [
     "oracle: vf/spec/cdb.py + vf/spec/bits.py",
     "each class is used the way the repository's tests use it: an instance of the class is constructed immediately before its marshall_cdb/unmarshall_cdb are called (isolation between classes is C09's subject)",
@@ -141,6 +141,23 @@ def check_assignment(name, cls, vals, basevals=None, dev=()):
     if m3 != b:
         out.append(("encode_runtime_keys/%s" % name, "%s.marshall_cdb(%r) with keys built at run time = %s, expected %s"
                     % (name, vals, m3.hex() if isinstance(m3, bytes) else m3, b.hex())))
+    # ... and with keys that are no field of this command in front of / between the others (documented to be ignored: the field
+    # dictionary of a sibling command, a decoded result, a caller's own annotations)
+    keys = list(vals)
+    for pos in (0, len(keys) // 2):
+        dd = {}
+        for i, k in enumerate(keys):
+            if i == pos:
+                dd["zz_not_a_field"] = 1
+            dd[k] = vals[k]
+        try:
+            m4 = bytes(cls.marshall_cdb(dd))
+        except Exception as e:   # noqa: BLE001
+            m4 = "raised %s" % type(e).__name__
+        if m4 != b:
+            out.append(("encode_foreign_key/%s" % name, "%s.marshall_cdb with a key that is no field at position %d of %r = %s, expected %s"
+                        % (name, pos, keys, m4.hex() if isinstance(m4, bytes) else m4, b.hex())))
+            break
     m2 = bytes(cls.marshall_cdb(d))
     if m2 != b:
         out.append(("reencode/%s" % name, "%s.marshall_cdb(unmarshall_cdb(%s)) = %s" % (name, b.hex(), m2.hex())))
@@ -180,6 +197,42 @@ def check_built_wide(name, cls, op):
                 continue
             if d.get(field) != v:
                 out.append(("built_wide/%s/%s" % (name, field), "%s built with %s=%#x: its CDB %s decodes to %s=%r" % (name, arg, v, bytes(cmd.cdb).hex(), field, d.get(field))))
+    return out
+
+
+def check_override(name):
+    """a derived command class that overrides the codec pair (a field the [mask, offset] notation cannot express): CDBs the library builds
+    for it - constructor, build_cdb - go through the overridden encoder, so its decoder stays their inverse"""
+    cls, inst, op = fresh_instance(name)
+    ln = S.CLASSES[name]["length"]
+    base_m, base_u = cls.marshall_cdb.__func__, cls.unmarshall_cdb.__func__
+
+    class Derived(cls):
+        @classmethod
+        def marshall_cdb(klass, cdb):
+            r = base_m(klass, cdb)        # (no super(): the library's metaclass re-creates the class, the implicit __class__ cell would not match)
+            r[ln - 1] ^= 0x5A
+            return r
+
+        @classmethod
+        def unmarshall_cdb(klass, cdb):
+            c = bytearray(cdb)
+            c[ln - 1] ^= 0x5A
+            return base_u(klass, c)
+    out = []
+    kw = CS.build_kwargs(name, CS.baseline(name), ata_blocksize=512 if name in S.ATA_LBA_BYTES else None)
+    try:
+        c = Derived(op, **kw)
+        built = bytes(c.cdb)
+        fields = Derived.unmarshall_cdb(built)
+        direct = bytes(Derived.marshall_cdb(dict(fields)))
+        again = bytes(c.build_cdb(**fields))
+    except Exception as e:   # noqa: BLE001
+        return [("override/raises/%s" % name, "%s with an overridden codec pair raised %s: %s" % (name, type(e).__name__, e))]
+    plain = bytes(cls(op, **kw).cdb)
+    if built != direct or again != direct or built[ln - 1] != plain[ln - 1] ^ 0x5A:
+        out.append(("override/%s" % name, "%s with marshall_cdb/unmarshall_cdb overridden in a subclass: constructor built %s, build_cdb %s, the subclass's marshall_cdb gives %s"
+                    % (name, built.hex(), again.hex(), direct.hex())))
     return out
 
 
@@ -226,6 +279,8 @@ def check_extension(name):
 def run_case(case):
     if case[0] == "extension":
         return check_extension(case[1])
+    if case[0] == "override":
+        return check_override(case[1])
     if case[0] == "built_wide":
         cls, inst, op = fresh_instance(case[1])
         return check_built_wide(case[1], cls, op)
@@ -334,6 +389,15 @@ def run_partition(part, tier, seed):
         for k, what in v:
             acc.violation(k, what, case)
         acc.outcome((name, "built", tuple(sorted(point.items())), tuple(k for k, _ in v)))
+    case = ["override", name]
+    acc.case(case, nontrivial=True, key=("override", name))
+    try:
+        v = check_override(name)
+    except Exception as e:
+        v = [("raises/%s" % name, "%s: override check %s %r" % (name, type(e).__name__, e))]
+    for k, what in v:
+        acc.violation(k, what, case)
+    acc.outcome((name, "override", tuple(k for k, _ in v)))
     case = ["built_wide", name]
     acc.case(case, nontrivial=True, key=("built_wide", name))
     try:
